@@ -49,8 +49,10 @@ POOL = {
     "setA(uint256)": e2e.arg(0) + ["PUSH0", "SSTORE"],
     "setB(uint256)": e2e.arg(0) + [("PUSH", 1), "SSTORE"],
     "setB2(uint256)": require(["PUSH0", "SLOAD"]) + e2e.arg(0) + [("PUSH", 1), "SSTORE"],
+    "tset(uint256)": e2e.arg(0) + ["PUSH0", "TSTORE"] + e2e.arg(0) + [("PUSH", 2), "SSTORE"],
     "seed(uint256)": require([("PUSH", 3)] + e2e.arg(0) + ["LT"]) + e2e.arg(0) + [("PUSH", 5), "MUL", ("PUSH", 1), "SSTORE"],
 }
+TGET = ("tget()", ["PUSH0", "TLOAD"] + ret_word())
 GETTERS = [("x()", ["PUSH0", "SLOAD"] + ret_word()), ("y()", [("PUSH", 1), "SLOAD"] + ret_word()), ("bal()", ["SELFBALANCE"] + ret_word())]
 PAYABLE = {"deposit()"}
 
@@ -75,6 +77,7 @@ INVARIANTS = {
     # the same with two nested branches (a branch condition of an earlier frontier state must not constrain later ones)
     "nested!(x==5&&y==7)": lambda K: get("x()") + [("PUSH", 5), "EQ", ("PUSHL", "a"), "JUMPI", "STOP", ("LABEL", "a")] + get("y()") + [
         ("PUSH", 7), "EQ", ("PUSHL", "bad"), "JUMPI", "STOP", ("LABEL", "bad")] + e2e.panic(1),
+    "tget==0": lambda K: fail_if(get("tget()") + ["ISZERO", "ISZERO"]),
     "x!=y+K": lambda K: fail_if(get("x()") + get("y()") + [("PUSH", K), "ADD", "EQ"]),
 }
 
@@ -140,13 +143,16 @@ def handmade():
                         target_selectors=[["setY(uint256)", "dec()"]]))
         out.append(dict(fns=["inc()", "setY(uint256)"], inv="x+y!=K", K=10, depth=2, senders=None, k=f"xsel-d{d}", seed=0,
                         exclude_selectors=[["inc()"], ["x()"]]))
+        # transient storage starts empty in every transaction (the invariant call is a new transaction)
+        out.append(dict(fns=["tset(uint256)", "inc()"], inv="tget==0", K=0, depth=d, senders=None, k=f"transient-reset-d{d}", seed=0))
         out.append(dict(fns=["unlock()", "inc()"], inv="x!=K", K=77, depth=d, senders=None, k=f"unlock-d{d}", seed=0))
         out.append(dict(fns=["inc()", "trap(uint256)"], inv="x<K", K=10, depth=d + 1, senders=None, k=f"trap-d{d+1}", seed=0))
     return out
 
 
 def build(case):
-    tfns = [(s, POOL[s], "payable") if s in PAYABLE else (s, POOL[s]) for s in case["fns"]] + GETTERS
+    tfns = [(s, POOL[s], "payable") if s in PAYABLE else (s, POOL[s]) for s in case["fns"]] + GETTERS + (
+        [TGET] if "tset(uint256)" in case["fns"] or case["inv"] == "tget==0" else [])
     target = e2e.Spec("Tgt", fns=tfns)
     tfn = [("setUp()", e2e.create_from_data("tgt", store_slot=0)), ("invariant_i()", INVARIANTS[case["inv"]](case["K"]))]
     ts, xs = [], []
@@ -245,7 +251,7 @@ def fmt(m):
 
 def main(run: common.Run):
     tier = run.tier
-    n = 14 if tier == "quick" else 80
+    n = 14 if tier == "quick" else 400
     run.bounds = {"generated_cases": n, "handmade_cases": len(handmade()), "target_functions": "1..3 of " + str(len(POOL)), "depth": "0..2 (thorough 3)",
                   "solver_cap_s": 20 if tier == "quick" else 90}
     run.functions_encoded = ["halmos.__main__._compute_frontier", "halmos.__main__.run_target_contract", "halmos.__main__.run_target_function",
